@@ -900,7 +900,10 @@ class Twist3(SMTwist):
 
         if base.isscalar(theta):
             # theta is a scalar
-            return SE3(base.trexp(self.S * theta))
+            if len(self) == 1:
+                return SE3(base.trexp(self.S * theta))
+            else:
+                return SE3([base.trexp(S * theta) for S in self.data])
         else:
             # theta is a vector
             if len(self) == 1:
